@@ -177,7 +177,7 @@ def execute(jobs: list) -> list:
     if not jobs:
         return []
     ctx = multiprocessing.get_context("fork")
-    with ctx.Pool(min(16, max(1, len(jobs) // 50 + 1))) as pool:
+    with ctx.Pool(min(16, max(1, len(jobs) // 50 + 1)), initializer=common.limit_worker) as pool:
         traces = pool.map(_exec, jobs, chunksize=64)
     for t in traces:
         if "harness_error" in t:
